@@ -943,8 +943,11 @@ def c19(tier):
         res = json.loads(p.stdout.strip().splitlines()[-1])
         if res.get("counts", {}).get("infra"):
             raise Infra("keepalive harness: %s" % res.get("notes"))
+        late = res.get("counts", {}).get("late", 0)
+        if late * 5 > max(1, res.get("evaluations", 0)):
+            raise Infra("keepalive harness: %d of %d schedules could not be kept in real time (machine too loaded)" % (late, res.get("evaluations", 0)))
         v.cov["parts"]["K=%ds%s%s" % (k, " (CONNECT carries 0)" if req == 0 else "", " unit %d ms" % unitms if unitms else "")] = {"schedules": res.get("evaluations", 0), "steps": res.get("steps", 0), "mismatching": res.get("nmismatch", 0),
-                                       "of_enumerated": len(scheds)}
+                                       "of_enumerated": len(scheds), "not_kept_in_real_time": late}
         v.cov["evaluations"] += res.get("evaluations", 0)
         v.cov["traces_validated_against_impl"] += res.get("evaluations", 0)
         v.cov["distinct_nontrivial"] += res.get("evaluations", 0)
